@@ -13,9 +13,9 @@ pub open spec fn inst(n: int) -> Instant { Instant { ns: Ghost(n) } }
 
 impl Duration {
     #[verifier::external_body]
-    pub fn from_secs(s: u64) -> (r: Duration) ensures r.ns@ == s as int * 1_000_000_000 { unimplemented!() }
+    pub const fn from_secs(s: u64) -> (r: Duration) ensures r.ns@ == s as int * 1_000_000_000 { Duration { ns: Ghost::assume_new() } }
     #[verifier::external_body]
-    pub fn from_millis(s: u64) -> (r: Duration) ensures r.ns@ == s as int * 1_000_000 { unimplemented!() }
+    pub const fn from_millis(s: u64) -> (r: Duration) ensures r.ns@ == s as int * 1_000_000 { Duration { ns: Ghost::assume_new() } }
     #[verifier::external_body]
     pub fn mul_f32(self, f: f32) -> (r: Duration) ensures r == dur_mul_f32(self, f) { unimplemented!() }
     #[verifier::external_body]
